@@ -10,6 +10,6 @@ CONSTANTS
   TimeoutsK = {2}
   MaxOpens = 2
   EnvEdits = TRUE
-  MidRun = "any"
+  MidRun = "cand"
 INVARIANTS Containment OrderRespected NoDescentBelowOomGroup UnpopulatedNeverAttempted DryIsPure NoSignalWhileHookOutstanding AtMostOneInvocation OneFirePerVictim RetMapping NoFireAfterWindow
 CHECK_DEADLOCK FALSE
